@@ -66,9 +66,10 @@ class C16(LineCheck):
         "keys are mathematical integers (Z) compared by <; the C comparator used by the harness is integer comparison",
         "delete is only called for a node that is in the tree (API contract)",
     ]
-    rule = ("cases = every AVL shape of height <= 4 (335 shapes; height 5 sampled in thorough) x every insert gap and every deletable node, "
+    rule = ("cases = every AVL shape of height <= 4 (335 shapes; height 5 sampled in thorough) x every insert gap, every deletable node and "
+            "every node handed to insert a second time while linked (op I: leaf, interior node, root), "
             "plus seeded random mixed insert/delete histories with duplicate keys over small key ranges; a case is non-trivial when some "
-            "successful operation acts on a tree of >= 3 nodes (rebalancing walks a path of length >= 2); distinct = distinct case text; "
+            "successful or rejected (-1) operation acts on a tree of >= 3 nodes (rebalancing walks a path of length >= 2); distinct = distinct case text; "
             "every case runs through both stages: tree dump vs AvlModel + monitor, and pointer-level dump (all fields of all live node "
             "objects by allocation serial, root, traversals by node identity) vs AvlPtrModel, after every operation")
 
@@ -195,6 +196,11 @@ class C16(LineCheck):
                     cases.append("%s | i%d" % (t, 2 * g + 1))
                 for k in range(1, n + 1):
                     cases.append("%s | d%d i%d" % (t, 2 * k, 2 * k))
+                # double registration: the already linked node object (every node: leaves, interior nodes, the root)
+                # is handed to insert again; then a fresh insert / a delete next to it works on whatever is left
+                for k in range(1, n + 1):
+                    cases.append("%s | I%d" % (t, 2 * k))
+                    cases.append("%s | I%d i%d d%d" % (t, 2 * k, 2 * rng.randint(0, n) + 1, 2 * rng.randint(1, n)))
                 if n:
                     cases.append("%s | i%d" % (t, 2 * rng.randint(1, n)))      # duplicate
         self.n_exh = len(cases) - self.n_corpus
@@ -208,6 +214,7 @@ class C16(LineCheck):
                     else:
                         k = 2 * rng.randint(1, n)
                         cases.append("%s | d%d" % (t, k))
+                cases.append("%s | I%d" % (t, 2 * rng.randint(1, n)))
         # random histories
         nh = 400 if ctx.tier == "quick" else 6000
         self.n_hist = nh
@@ -218,7 +225,8 @@ class C16(LineCheck):
             ops = []
             for _ in range(length):
                 k = rng.randint(0, span)
-                ops.append(("i%d" if rng.random() < pins else "d%d") % k)
+                u = rng.random()
+                ops.append(("I%d" if u < 0.12 else "i%d" if u < pins else "d%d") % k)
             cases.append(". | " + " ".join(ops))
         return cases
 
@@ -226,7 +234,7 @@ class C16(LineCheck):
         if mo is None:
             return False
         for seg in mo.split(" | "):
-            if seg.startswith("rc 0") and seg.count(":") >= 4:
+            if (seg.startswith("rc 0") or seg.startswith("rc -1")) and seg.count(":") >= 4:
                 return True
         return False
 
@@ -238,9 +246,10 @@ class C16(LineCheck):
 
     def distribution(self, cases):
         ins = sum(c.split("|")[1].count("i") for c in cases)
+        reins = sum(c.split("|")[1].count("I") for c in cases)
         dele = sum(c.split("|")[1].count("d") for c in cases)
         return {"corpus_cases": self.n_corpus, "exhaustive_shape_cases": self.n_exh, "random_histories": self.n_hist,
-                "insert_ops": ins, "delete_ops": dele,
+                "insert_ops": ins, "insert_linked_node_ops": reins, "delete_ops": dele,
                 "pointer_level_cases_equal": self.ptr_cases, "pointer_level_ops_compared": self.ptr_ops}
 
     def _fails(self, ctx, case):
